@@ -121,7 +121,7 @@ def complex_case(draw, tier, mode):
     m = draw(st.integers(1, 4))
     extra = [draw(st.integers(1, 2))] if draw(st.booleans()) else []
     kind = draw(st.sampled_from(['dense', 'dense', 'bdiag', 'dense_then_real', 'real_then_dense', 'hom_int', 'hom_complex',
-                                 'hom_int_inv']))
+                                 'hom_int_inv', 'blockdiag', 'blockrow', 'blockcol']))
     vals = st.sampled_from([-2.0, -1.0, 0.0, 0.5, 1.0, 2.0, 3.0])
     re = [[draw(vals) for _ in range(n)] for _ in range(m)]
     im = [[draw(vals) for _ in range(n)] for _ in range(m)]
@@ -129,7 +129,9 @@ def complex_case(draw, tier, mode):
     dim = [draw(st.sampled_from([-1.0, 1.0, 2.0, 0.5])) for _ in range(n)]
     dt = draw(st.sampled_from(['float32', 'float64'])) if mode == 'x64' else 'float32'
     return {'complex': {'kind': kind, 'n': n, 'm': m, 'extra': extra, 're': re, 'im': im, 'dre': dre, 'dim': dim,
-                        'dtype': dt, 'seed': draw(st.integers(0, 50))}}
+                        'dtype': dt, 'seed': draw(st.integers(0, 50)),
+                        # complex DATA as well (then input and output dtypes agree and the transpose is judged too)
+                        'cdata': draw(st.booleans())}}
 
 
 def _check_complex(r, mode):
@@ -143,7 +145,12 @@ def _check_complex(r, mode):
     n, m, extra = r['n'], r['m'], tuple(r['extra'])
     dt = r['dtype']
     cdt = 'complex64' if dt == 'float32' else 'complex128'
-    S = jax.ShapeDtypeStruct((n,) + extra, jnp.dtype(dt))
+    cdata = bool(r.get('cdata')) and not r['kind'].startswith('hom')
+    if r['kind'] in ('blockrow', 'blockcol') and not cdata:
+        # (a complex and a real block do not share an output dtype: such a row, or the transpose of such a column, is refused)
+        cdata = True
+    ddt = cdt if cdata else dt
+    S = jax.ShapeDtypeStruct((n,) + extra, jnp.dtype(ddt))
     B = np.asarray(r['re'], dtype=float) + 1j * np.asarray(r['im'], dtype=float)
     d = np.asarray(r['dre'], dtype=float) + 1j * np.asarray(r['dim'], dtype=float)
     e = int(np.prod(extra)) if extra else 1
@@ -168,6 +175,28 @@ def _check_complex(r, mode):
         op = must_not_raise('build', DiagonalOperator if False else BroadcastDiagonalOperator, jnp.asarray(d, dtype=cdt),
                             axis_destination=0, in_structure=S)
         M = np.kron(np.diag(d), np.eye(e))
+    elif r['kind'].startswith('block'):
+        # block operators whose blocks are wider than the data (complex coefficients on real input), next to a real block
+        from furax._base.blocks import BlockColumnOperator, BlockDiagonalOperator, BlockRowOperator
+
+        Br = np.asarray(r['im'], dtype=float) + 1.0
+        d1 = DenseBlockDiagonalOperator(jnp.asarray(B, dtype=cdt), S)
+        d2 = DenseBlockDiagonalOperator(jnp.asarray(Br, dtype=dt), S)
+        two = r['seed'] % 2 == 0
+        blocks = ([d1, d2] if two else [d2, d1])
+        mats = [np.kron(B, np.eye(e)), np.kron(Br, np.eye(e))] if two else [np.kron(Br, np.eye(e)), np.kron(B, np.eye(e))]
+        cont = {'b': blocks[0], 'a': blocks[1]} if r['seed'] % 3 == 0 else (tuple(blocks) if r['seed'] % 3 == 1 else list(blocks))
+        if isinstance(cont, dict):
+            mats = mats[::-1]  # JAX flattens dicts in sorted key order: 'a' (the second block) first
+        if r['kind'] == 'blockdiag':
+            op = must_not_raise('build', BlockDiagonalOperator, cont)
+            M = np.block([[mats[0], np.zeros_like(mats[1])], [np.zeros_like(mats[0]), mats[1]]])
+        elif r['kind'] == 'blockrow':
+            op = must_not_raise('build', BlockRowOperator, cont)
+            M = np.hstack(mats)
+        else:
+            op = must_not_raise('build', BlockColumnOperator, cont)
+            M = np.vstack(mats)
     else:
         dense = must_not_raise('build', DenseBlockDiagonalOperator, jnp.asarray(B, dtype=cdt), S)
         M = np.kron(B, np.eye(e))
@@ -180,11 +209,21 @@ def _check_complex(r, mode):
             M = -M
         else:
             op = dense
-    x = (((np.arange(n * e) * 3 + r['seed']) % 7) - 3).astype(float)
-    xv = jnp.asarray(x.reshape((n,) + extra), dtype=dt)
+    nin = M.shape[1]
+    x = (((np.arange(nin) * 3 + r['seed']) % 7) - 3).astype(float)
+    if cdata:
+        x = x + 1j * ((((np.arange(nin) * 5 + r['seed']) % 5) - 2).astype(float))
+    ins = op.in_structure()
+    in_leaves, in_def = jax.tree.flatten(ins)
+    parts, pos = [], 0
+    for l_ in in_leaves:
+        sz = int(np.prod(l_.shape))
+        parts.append(jnp.asarray(x[pos:pos + sz].reshape(l_.shape), dtype=l_.dtype))
+        pos += sz
+    xv = jax.tree.unflatten(in_def, parts)
     y = must_not_raise('mv', op.mv, xv)
     want = M @ x
-    got = np.asarray(y).reshape(-1)
+    got = np.concatenate([np.asarray(l_).reshape(-1) for l_ in jax.tree.leaves(y)])
     tol = 1e-5 * (1 + np.abs(want).max(initial=0))
     if got.shape != want.shape or np.abs(got - want).max(initial=0) > tol:
         raise Violation('complex:mv', f'op(x) = {got[:4]} but the reference gives {want[:4]}')
@@ -201,7 +240,23 @@ def _check_complex(r, mode):
                                                f'dtype {A.dtype}, max diff {np.abs(A - M).max(initial=0) if A.shape == M.shape else A.shape}')
         if np.abs((A @ x) - got).max(initial=0) > tol:
             raise Violation('complex:mv-vs-' + name, f'op(x) differs from {name}() @ flatten(x)')
-    return {'nontrivial': True, 'classes': ['complex:' + r['kind']]}
+    if cdata:
+        # the transpose of an operator with complex coefficients is the TRANSPOSE (no conjugation): <A x, y> = <x, A.T y>
+        # with the bilinear pairing, i.e. the dense matrix of A.T is M.T
+        T = must_not_raise('complex:transpose', lambda: op.T)
+        yl, ydef = jax.tree.flatten(y)
+        yv = (((np.arange(M.shape[0]) * 5 + r['seed']) % 5) - 2).astype(float) + 1j * ((((np.arange(M.shape[0]) * 3 + r['seed']) % 3) - 1).astype(float))
+        parts, pos = [], 0
+        for l_ in yl:
+            sz = int(np.prod(l_.shape))
+            parts.append(jnp.asarray(yv[pos:pos + sz].reshape(l_.shape), dtype=l_.dtype))
+            pos += sz
+        z = must_not_raise('complex:T-mv', T.mv, jax.tree.unflatten(ydef, parts))
+        gz = np.concatenate([np.asarray(l_).reshape(-1) for l_ in jax.tree.leaves(z)])
+        wz = M.T @ yv
+        if gz.shape != wz.shape or np.abs(gz - wz).max(initial=0) > 1e-5 * (1 + np.abs(wz).max(initial=0)):
+            raise Violation('complex:T-value', f'op.T(y) = {gz[:4]} but the transposed matrix gives {wz[:4]} (complex coefficients on {ddt} input)')
+    return {'nontrivial': True, 'classes': ['complex:' + r['kind']] + (['complex_data'] if cdata else [])}
 
 
 def strategy(tier, mode):
